@@ -118,3 +118,8 @@ Proof.
     assert (Hd : In ("p", 1) (derivable_preds sd_prog)) by (vm_compute; left; reflexivity).
     apply (derivable_iff sd_prog ("p", 1) W) in Hd. destruct Hd as [s [Hs Hh]]. exact (Hn s Hs Hh).
 Qed.
+
+(* the open part of the result (all - derivable) is emitted in Python's tuple order, whatever the
+   iteration order of the sets it was computed from *)
+Theorem input_open_part_sorted_proof : forall P, psorted (fst (auto_detect_input_parts P)).
+Proof. intros P. unfold auto_detect_input_parts. cbv zeta. simpl fst. apply psort_sorted. Qed.
